@@ -68,7 +68,7 @@ Qed.
 
 (* every allowed dtype name is a spelling numpy maps to itself, and is not empty *)
 Definition dtype_table_ok (d : string) : bool :=
-  match assoc d np_names with Some n => String.eqb n d | None => false end && negb (String.eqb d "").
+  match np_dtype_name (JStr d) with Some n => String.eqb n d | None => false end && negb (String.eqb d "").
 
 Lemma valid_dtypes_table : forallb dtype_table_ok valid_dtypes = true.
 Proof. vm_compute. reflexivity. Qed.
@@ -77,7 +77,7 @@ Lemma convert_dtype_rt d : smem d valid_dtypes = true -> convert_dtype (JStr d) 
 Proof.
   intros H. pose proof (forallb_In _ _ d valid_dtypes_table (proj1 (smem_In _ _) H)) as T.
   unfold dtype_table_ok in T. apply andb_true_iff in T. destruct T as [T1 T2].
-  unfold convert_dtype, np_dtype_name. destruct (assoc d np_names) as [n|]; [|discriminate].
+  unfold convert_dtype. destruct (np_dtype_name (JStr d)) as [n|]; [|discriminate].
   apply String.eqb_eq in T1. subst n. rewrite H. unfold v_str_min1.
   apply negb_true_iff in T2. rewrite T2. reflexivity.
 Qed.
